@@ -349,8 +349,9 @@ static void run_stream(const uint8_t *data, size_t n, size_t chunk, int seg, uns
 /* the same through a decode_queue: bytes arrive with mpt_qpush, answers come
  * from mpt_queue_recv (which shifts consumed data away and makes room by
  * itself while the queue has free space); mpt_queue_peek is called in between */
-static void run_queue(const uint8_t *data, size_t n, size_t chunk, size_t grant, int maxres)
+static void run_queue(const uint8_t *data, size_t n, size_t chunk, size_t grant, int maxres, size_t ring)
 {
+	long wraps = 0, peeks = 0;
 	MPT_STRUCT(decode_queue) dq = MPT_DECODE_QUEUE_INIT;
 	size_t fed = 0;
 	int nres = 0, calls = 0, idle = 1, nobuf = 0;
@@ -361,15 +362,27 @@ static void run_queue(const uint8_t *data, size_t n, size_t chunk, size_t grant,
 	while (1) {
 		int r;
 		if (idle) {
-			size_t k = chunk ? chunk : n;
+			size_t k = chunk ? chunk : n, room;
 			if (fed >= n) break;
 			if (k > n - fed) k = n - fed;
-			if (dq.data.max - dq.data.len < k) mpt_queue_prepare(&dq.data, k);
+			/* the ring keeps its size while anything fits: its content wraps */
+			if (!dq.data.max && ring) mpt_queue_prepare(&dq.data, ring);
+			room = dq.data.max - dq.data.len;
+			if (!room) mpt_queue_prepare(&dq.data, k);
+			else if (k > room) k = room;
 			if (mpt_qpush(&dq.data, k, data + fed) < 0) { last = "qpush"; break; }
 			fed += k;
 			idle = 0;
 		}
+		if (dq.data.off + dq.data.len > dq.data.max) ++wraps;
 		(void) mpt_queue_peek(&dq, 0, 0);
+		{	/* preview with a target buffer of exactly the size passed */
+			size_t pmax = (calls % 3) ? dq.data.len + 1 : 3;
+			uint8_t *pb = (uint8_t *) malloc(pmax);
+			ssize_t pr = mpt_queue_peek(&dq, pmax, pb);
+			if (pr > 0) ++peeks;
+			free(pb);
+		}
 		r = mpt_queue_recv(&dq);
 		++calls;
 		if (r != MPT_ERROR(MissingBuffer)) nobuf = 0;
@@ -408,6 +421,8 @@ static void run_queue(const uint8_t *data, size_t n, size_t chunk, size_t grant,
 	j_int("wr_margin", -1);
 	j_int("guards", 1);
 	j_int("calls", calls);
+	j_int("wraps", wraps);     /* calls made while the ring content was wrapped (dbg) */
+	j_int("peeks", peeks);     /* previews that copied data (dbg) */
 	free(dq.data.base);
 }
 
@@ -697,6 +712,125 @@ static void act_term(struct cmd *c, int fin)
 	drv_end();
 }
 
+
+/* ------------------------------------------------------------------ */
+/* fixed-size encode ring (mpt_queue_push on a queue that never grows):
+ *   qinit kind=K m=M cap=N        ring of exactly N bytes
+ *   qsend msg=<bytes> fl=<ints>   push one message and terminate it; whenever the
+ *                                 ring is full the reader takes the next size of
+ *                                 fl (default: all finished bytes) from the front
+ *   qflush n=N                    reader takes min(N, finished) bytes from the front
+ *                                 (mpt_queue_get + mpt_queue_crop + done -= n, as
+ *                                 mpt_stream_flush does)
+ *   qend                          reader takes the rest; reports every byte the
+ *                                 reader got ("wire") and what the library decoder
+ *                                 makes of that byte stream
+ */
+static uint8_t *wire; static size_t wire_len, wire_cap;
+static int ring_dead;
+
+static size_t ring_flush(size_t n)
+{
+	size_t done = equ._state.done;
+	if (n > done) n = done;
+	if (!n) return 0;
+	if (wire_len + n > wire_cap) wire = (uint8_t *) realloc(wire, wire_cap = (wire_len + n) * 2 + 64);
+	if (mpt_queue_get(&equ.data, 0, n, wire + wire_len) < 0) return 0;
+	if (mpt_queue_crop(&equ.data, 0, n) < 0) return 0;
+	equ._state.done -= n;
+	wire_len += n;
+	return n;
+}
+static void ring_dbg(void)
+{
+	drv_dbg();
+	j_int("max", (long long) equ.data.max);
+	j_int("off", (long long) equ.data.off);
+	j_int("len", (long long) equ.data.len);
+	j_int("done", (long long) equ._state.done);
+	j_int("scratch", (long long) equ._state.scratch);
+	j_int("wire", (long long) wire_len);
+}
+static void act_qinit(struct cmd *c)
+{
+	const char *kind = drv_raw(c, "kind");
+	size_t cap = (size_t) drv_uint(c, "cap", 16);
+	enc_cleanup();
+	snprintf(ekind, sizeof(ekind), "%s", kind ? kind : "cobs");
+	snprintf(epath, sizeof(epath), "%s", "queue");
+	em = (int) drv_int(c, "m", 0);
+	efn = get_enc(ekind, em);
+	equ_used = 1;
+	equ._enc = efn ? enc_counted : 0;
+	equ.data.base = malloc(cap ? cap : 1);     /* exact size: ASan sees any byte beyond */
+	equ.data.max = cap;
+	wire_len = 0; ring_dead = 0;
+	drv_begin(c);
+	j_str("ret", efn ? "ok" : "nocodec");
+	ring_dbg();
+	drv_end();
+}
+static void act_qsend(struct cmd *c)
+{
+	size_t n, nfl, fi = 0, acc = 0;
+	uint8_t *m = drv_bytes(c, "msg", &n);
+	long long *fl = drv_ints(c, "fl", &nfl);
+	const char *cls = "ok";
+	int spins = 0, wrapped = 0;
+	ssize_t r = 0;
+
+	if (ring_dead) cls = "skip";
+	while (!ring_dead) {
+		if (acc < n) r = mpt_queue_push(&equ, n - acc, m + acc);
+		else r = mpt_queue_push(&equ, 0, 0);
+		if (equ.data.off + equ.data.len > equ.data.max) wrapped = 1;
+		if (r == MPT_ERROR(MissingBuffer)) {
+			size_t want = fi < nfl ? (size_t) fl[fi++] : equ._state.done;
+			if (!ring_flush(want ? want : 1)) { cls = "stuck"; ring_dead = 1; break; }
+		}
+		else if (r < 0) { cls = "err"; ring_dead = 1; break; }
+		else if (acc < n) acc += (size_t) r;
+		else break;         /* terminated */
+		if (++spins > 10000) { cls = "spin"; ring_dead = 1; break; }
+	}
+	drv_begin(c);
+	j_str("ret", cls);
+	j_int("n", (long long) acc);
+	ring_dbg();
+	j_int("code", (long long) r);
+	j_int("wrapped", wrapped);
+	drv_end();
+	free(m); free(fl);
+}
+static void act_qflush(struct cmd *c)
+{
+	size_t n = ring_flush((size_t) drv_uint(c, "n", 1));
+	drv_begin(c);
+	j_str("ret", "ok");
+	j_int("n", (long long) n);
+	ring_dbg();
+	drv_end();
+}
+static void act_qend(struct cmd *c)
+{
+	uint8_t *w;
+	size_t wl;
+	ring_flush(equ._state.done);
+	wl = wire_len;
+	w = (uint8_t *) malloc(wl + 1);
+	memcpy(w, wire, wl);
+	drv_begin(c);
+	j_str("ret", "ok");
+	j_bytes("wire", w, wl);
+	dec_setup(ekind, em, 0);
+	j_open("dec");
+	run_stream(w, wl, 0, 0, 0, 8, 1000);
+	j_close();
+	ring_dbg();
+	drv_end();
+	free(w);
+}
+
 /* ------------------------------------------------------------------ */
 static void step_inner(struct cmd *c)
 {
@@ -706,6 +840,10 @@ static void step_inner(struct cmd *c)
 	else if (!strcmp(a, "grow")) act_grow(c);
 	else if (!strcmp(a, "term")) act_term(c, 0);
 	else if (!strcmp(a, "fin")) act_term(c, 1);
+	else if (!strcmp(a, "qinit")) act_qinit(c);
+	else if (!strcmp(a, "qsend")) act_qsend(c);
+	else if (!strcmp(a, "qflush")) act_qflush(c);
+	else if (!strcmp(a, "qend")) act_qend(c);
 	else if (!strcmp(a, "dinit")) {
 		dec_setup(drv_raw(c, "kind"), (int) drv_int(c, "m", 0), (size_t) drv_uint(c, "slack", 0));
 		drv_begin(c); j_str("ret", dfn ? "ok" : "nocodec"); j_int("curr", (long long) dst_state.curr);
@@ -753,7 +891,7 @@ static void step_inner(struct cmd *c)
 		drv_begin(c);
 		if (!dfn) j_str("ret", "nocodec");
 		else run_queue(d, n, (size_t) drv_uint(c, "chunk", 0), (size_t) drv_uint(c, "grant", 8),
-		               (int) drv_int(c, "maxres", 64));
+		               (int) drv_int(c, "maxres", 64), (size_t) drv_uint(c, "ring", 0));
 		drv_dbg();
 		drv_end();
 		free(d);
